@@ -9,8 +9,8 @@ EXPLANATION = (
     "(no width bound) to every controller of that kind in turn, through attribute assignment, through the constructor keyword and in "
     "lenient mode; the accept/reject rule and the defaults come from specs/fileformat.yaml (vf/spec.py), not from rv."
 )
-BOUNDS = {"quick": {"value": "all integers (unbounded), all booleans, every enum member by name; by value for <= 4 seeded enum controllers per type (all in thorough)", "types": "all 43 types, every controller the YAML lists"},
-          "thorough": {"value": "as quick", "types": "as quick"}}
+BOUNDS = {"quick": {"value": "all integers (unbounded), all booleans, every enum member by name; by value for <= 4 seeded enum controllers per type (all in thorough)", "types": "all 43 types, every controller the YAML lists", "pre-state": "fresh module; and (range.stale.*) a module already storing ANY integer w, stored leniently, for 6 seeded controllers per type (all in thorough)"},
+          "thorough": {"value": "as quick", "types": "as quick", "pre-state": "all range controllers"}}
 OUTSIDE = ["non-integer values (floats, strings other than enum member names)", "MetaModule user-defined controllers (C15)"]
 ASSUMPTIONS = ["the YAML specification is the source of truth for ranges, members and defaults"]
 
